@@ -161,9 +161,30 @@ func verify(c *Ctx, sel func(ct *Contract) bool, want func(name string, tags []s
 	prelude := c.Prelude()
 	withAxioms := func(q string) string {
 		var b strings.Builder
+		// definitions of the opaque spec functions the query mentions (transitively)
+		done := map[string]bool{}
+		text := q
+		for changed := true; changed; {
+			changed = false
+			var ons []string
+			for n := range c.opaque {
+				ons = append(ons, n)
+			}
+			sort.Strings(ons)
+			for _, n := range ons {
+				od := c.opaque[n]
+				if od == nil || done[n] || !reSym("sf_"+n).MatchString(text) {
+					continue
+				}
+				done[n] = true
+				changed = true
+				b.WriteString(od.axiom)
+				text += od.axiom
+			}
+		}
 		for _, a := range axioms {
 			for _, sym := range a.syms {
-				if strings.Contains(q, sym) {
+				if strings.Contains(text, sym) {
 					b.WriteString(a.text)
 					rr.Assumed["axiom:"+a.name] = a.src
 					break
@@ -553,3 +574,15 @@ func cmdVerify(args []string) {
 
 var _ = json.Marshal
 var _ *ssa.Function
+
+var symRe = map[string]*regexp.Regexp{}
+
+// reSym matches the SMT symbol s as a whole token.
+func reSym(s string) *regexp.Regexp {
+	if r, ok := symRe[s]; ok {
+		return r
+	}
+	r := regexp.MustCompile(`[( ]` + regexp.QuoteMeta(s) + `[) ]`)
+	symRe[s] = r
+	return r
+}
